@@ -56,6 +56,10 @@ def productions(rng: random.Random, leaf: str, tier: str) -> list[tuple[str, str
     outs.append(("bs:rel-up", f"..\\outside\\{leaf}"))
     outs.append(("bs:mixed", f"train/..\\..\\outside/{leaf}"))
     outs.append(("bs:abs", "{OUT}".replace("/", "\\") + "\\" + leaf))
+    # JSON-level escapes: the same hostile paths, spelled with \u002e and \/ in the raw JSON text
+    outs.append(("esc:rel", f"JSONESC:../outside/{leaf}"))
+    outs.append(("esc:rel-deep", f"JSONESC:train/../../outside/{leaf}"))
+    outs.append(("esc:abs", "JSONESC:{OUT}/" + leaf))
     inside = [("in:dot", "train/./" + leaf), ("in:double-slash", "train//" + leaf),
               ("in:updown", "train/sub/../" + leaf), ("in:abs-inside", "{ROOT}/train/" + leaf)]
     if tier == "thorough":
@@ -79,7 +83,7 @@ def gen_cases(tier: str, seed: int) -> list[dict]:
         rng.shuffle(batch)
         size = 24
         for k in range(0, len(batch), size):
-            cases.append({"fmt": fmt, "comp": comp, "items": batch[k:k + size]})
+            cases.append({"fmt": fmt, "comp": comp, "items": batch[k:k + size], "optimize": (k // size) % 2 == 1})
     return cases
 
 
@@ -106,6 +110,17 @@ def craft(zone: Path, base: Path, item: dict, fmt: str) -> dict:
     some_shard = next((root / "train").glob(f"*.{fmt}"))
     shutil.copy(some_shard, outside / f"canary.{fmt}")
     path = item["path"].replace("{OUT}", str(outside)).replace("{ROOT}", str(root))
+    escape = path.startswith("JSONESC:")
+    if escape:
+        path = path[len("JSONESC:"):]
+
+    def dump(doc) -> str:
+        text = json.dumps(doc)
+        if escape:
+            spelled = path.replace(".", "\\u002e").replace("/", "\\/")
+            text = text.replace(json.dumps(path), '"' + spelled + '"')
+        return text
+
     info_path = root / "dataset_info.json"
     info = json.loads(info_path.read_text())
     list_path = root / "train" / "shards_list.json"
@@ -114,16 +129,16 @@ def craft(zone: Path, base: Path, item: dict, fmt: str) -> dict:
         return {"subdir": path}
     if item["field"] == "split_list":
         info["splits"]["train"]["shard_list_info_file"]["file_path"] = path
-        info_path.write_text(json.dumps(info))
+        info_path.write_text(dump(info))
     elif item["field"] == "child_list":
         top["children_shard_lists"][0]["shard_list_info_file"]["file_path"] = path
-        list_path.write_text(json.dumps(top))
+        list_path.write_text(dump(top))
     elif item["field"] == "shard_file":
         top["shard_files"][0]["file_infos"][0]["file_path"] = path
-        list_path.write_text(json.dumps(top))
+        list_path.write_text(dump(top))
     elif item["field"] == "list_self":
         top["relative_path_self"] = path
-        list_path.write_text(json.dumps(top))
+        list_path.write_text(dump(top))
     return {"path": path}
 
 
@@ -163,7 +178,8 @@ def run_case(case: dict) -> dict:
         env = dict(os.environ, PYTHONPATH=str(common.VERIF), TF_CPP_MIN_LOG_LEVEL="3")
         proc = subprocess.run(
             ["strace", "-f", "-y", "-qq", "-s", "4096", "-e", f"trace={strace_log.FS_CALLS}", "-o", str(log_path),
-             common.PY, "-m", "rtmon.props.c17_child", str(spec_path), str(out_path)],
+             common.PY] + (["-O"] if case.get("optimize") else []) +
+            ["-m", "rtmon.props.c17_child", str(spec_path), str(out_path)],
             cwd=str(common.VERIF), env=env, capture_output=True, text=True, timeout=540, check=False)
         if not out_path.is_file():
             return {"sig": "child-failed", "nontrivial": False, "violations": [],
@@ -224,6 +240,7 @@ def run_case(case: dict) -> dict:
             if escaping and item["kind"] == "writer" and not outcome.get("write", "").startswith("raised"):
                 violations.append({"key": "writer-subdir-escape-accepted",
                                    "msg": f"{fmt} relative_path_from_split={crafted['subdir']!r} accepted"})
+        obs["batches_under_python_O"] = int(bool(case.get("optimize")))
         return {"sigs": sigs, "sig": None, "nontrivial": bool(sigs), "violations": violations, "obs": dict(obs),
                 "sample": {"fmt": fmt, "items": [[i["field"], i["path"]] for i in case["items"][:4]],
                            "outcomes": {k: v for k, v in list(child["results"].items())[:2]}}}
